@@ -105,6 +105,22 @@ Theorem start_refuses_overlap : forall n ops cands nrepl ft fc fcr m,
 Proof. exact start_refuses_overlap_l. Qed.
 Print Assumptions start_refuses_overlap.
 
+(* Every in-flight command stays reachable (so that its timeout and rollback can ever happen): REFUTED on the
+   unchanged tree (finding first-candidate-vanished): the queue enqueues only the NodeClaim of cmd.Candidates[0]
+   and reconcile.AsReconciler drops a request whose object is gone ... *)
+Theorem command_reachable_refuted : exists n ops, ~ Forall cmd_reachable (trace (init n) ops).
+Proof. exact command_reachable_refuted_l. Qed.
+Print Assumptions command_reachable_refuted.
+
+(* ... a request is dropped exactly when the first candidate's NodeClaim is gone (so as long as it exists, the
+   command is reconciled). *)
+Theorem reconcile_reaches_command_partial : forall n ops m fget fdel fut fcl c,
+  let s := run (init n) ops in
+  find (holds_node m) (s_q s) = Some c ->
+  (fst (snd (step s (Recon m fget fdel fut fcl))) = RDropped <-> n_gone (s_nodes s (hd 0 (c_cands c))) = true).
+Proof. exact reconcile_reaches_command_l. Qed.
+Print Assumptions reconcile_reaches_command_partial.
+
 (* The oracle of C08/Check.v evaluates exactly these clauses. *)
 Theorem oracle_is_spec : forall x,
   (del_after_init_b x = true <-> del_after_init x) /\
@@ -113,11 +129,12 @@ Theorem oracle_is_spec : forall x,
   (failed_rolls_back_b x = true <-> failed_rolls_back x) /\
   (start_failure_inert_b x = true <-> start_failure_inert x) /\
   (cleanup_restores_b x = true <-> cleanup_restores x) /\
-  (one_cmd_per_node_b x = true <-> one_cmd_per_node x).
+  (one_cmd_per_node_b x = true <-> one_cmd_per_node x) /\
+  (cmd_reachable_b x = true <-> cmd_reachable x).
 Proof.
   exact (fun x => conj (del_after_init_reflect x) (conj (del_while_ready_reflect x)
     (conj (failed_deletes_nothing_reflect x) (conj (failed_rolls_back_reflect x)
-    (conj (start_failure_inert_reflect x) (conj (cleanup_restores_reflect x) (one_cmd_per_node_reflect x))))))).
+    (conj (start_failure_inert_reflect x) (conj (cleanup_restores_reflect x) (conj (one_cmd_per_node_reflect x) (cmd_reachable_reflect x)))))))).
 Qed.
 Print Assumptions oracle_is_spec.
 
@@ -140,7 +157,7 @@ Example vanished_rolls_back :
   let ops := [Start [0] 1 [] [] []; ReplDelApi 0 0; ReplDelState 0 0; Recon 0 [] [] [] []] in
   let s := run (init 1) ops in
   forallb nofail_op ops = true /\ map obs_of (trace (init 1) ops) = [(Started, []); (EnvOk, []); (EnvOk, []); (RFailed, [])] /\
-  s_q s = [] /\ s_nodes s 0 = mkNode false false false false false false.
+  s_q s = [] /\ s_nodes s 0 = node0.
 Proof. vm_compute. repeat split. Qed.
 
 (* a latched replacement that vanishes (delivered) now fails the command instead of deleting the candidates *)
@@ -191,4 +208,17 @@ Example vanished_candidate_rollback :
   let s := run (init 3) ops in
   o_ret (snd (last (trace (init 3) ops) (snap_of (init 0), Restart, mkObs EnvOk [] (snap_of (init 0))))) = RFailed /\
   s_q s = [] /\ s_nodes s 0 = node0 /\ s_nodes s 1 = gone_node /\ s_nodes s 2 = node0.
+Proof. vm_compute. repeat split. Qed.
+
+(* the first candidate vanishes: the command is orphaned; an hour later nodes 1 and 2 are still tainted, marked and queued *)
+Example orphaned_command :
+  let s := run (init 3) orphan_witness in
+  map obs_of (trace (init 3) orphan_witness) = [(Started, []); (EnvOk, []); (EnvOk, []); (EnvOk, []); (RDropped, []); (COk, [])] /\
+  length (s_q s) = 1 /\ n_taint (s_nodes s 1) = true /\ n_mark (s_nodes s 2) = true.
+Proof. vm_compute. repeat split. Qed.
+
+(* the taint of a Node that is being deleted is left to the termination controller; a StateNode whose Node is gone is skipped *)
+Example node_object_states :
+  let s := run (init 2) [Start [0; 1] 1 [] [] [0]; NodeObjDeleting 0; NodeObjGone 1; Cleanup [] []] in
+  n_taint (s_nodes s 0) = true /\ n_cond (s_nodes s 0) = false /\ n_taint (s_nodes s 1) = false /\ n_cond (s_nodes s 1) = true.
 Proof. vm_compute. repeat split. Qed.
